@@ -6,6 +6,7 @@ import (
 	"go/constant"
 	"go/token"
 	"go/types"
+	"golang.org/x/tools/go/callgraph"
 	"os"
 	"sort"
 	"strings"
@@ -383,6 +384,12 @@ func c14IntroduceGate(p *Prog) *RuleResult {
 			fmt.Printf("UNGATED %s [%s] @ %s\n", key, s.feature, p.Pos(s.instr.Pos()))
 		}
 		if ok, _ := guardedExc(p, r, c14GateExceptions, key); ok {
+			continue
+		}
+		// a helper that was split off a function with a reviewed entry for the same construction: when
+		// every in-module caller of this function carries that entry, the reason carries over
+		if inherited := c14InheritedException(p, cg, s.fn, s.what); inherited != "" {
+			r.OK(key, true, "reviewed for its only caller(s): "+inherited)
 			continue
 		}
 		r.Fail(key, p.Pos(s.instr.Pos()), "constructs "+s.what+" without a dominating check that compat."+s.feature+" is supported by the target")
@@ -784,4 +791,38 @@ func c14ExportNameScope(p *Prog) *RuleResult {
 	}
 	r.Anchor("the export-name diagnostic in scanImportsAndExports", n >= 1)
 	return r
+}
+
+// c14InheritedException: fn has at least one in-module caller, and every caller has a reviewed entry
+// "<caller> <what>" (possibly with an ordinal) in the gate table; returns the callers, or "".
+func c14InheritedException(p *Prog, cg *callgraph.Graph, fn *ssa.Function, what string) string {
+	n := cg.Nodes[fn]
+	if n == nil || len(n.In) == 0 {
+		return ""
+	}
+	var callers []string
+	seen := map[*ssa.Function]bool{}
+	for _, e := range n.In {
+		caller := e.Caller.Func
+		if caller == fn || seen[caller] || !p.InModule(caller) {
+			continue
+		}
+		seen[caller] = true
+		base := FuncName(caller) + " " + what
+		has := false
+		for k := range c14GateExceptions {
+			if k == base || strings.HasPrefix(k, base+" #") {
+				has = true
+			}
+		}
+		if !has {
+			return ""
+		}
+		callers = append(callers, FuncName(caller))
+	}
+	if len(callers) == 0 {
+		return ""
+	}
+	sort.Strings(callers)
+	return strings.Join(callers, ", ")
 }
